@@ -95,6 +95,14 @@ impl std::fmt::Debug for RCase {
 }
 
 #[derive(Clone, Debug, Serialize, Deserialize)]
+struct NCase {
+    /// 0 = graph -> node -> attribute -> g -> node -> ... ; 1 = value-info type -> sequence -> elem_type -> sequence ...
+    shape: u8,
+    /// number of repetitions of the recursive unit
+    depth: u32,
+}
+
+#[derive(Clone, Debug, Serialize, Deserialize)]
 struct FuzzCase {
     target: String,
     bytes: Vec<u8>,
@@ -311,6 +319,72 @@ fn roundtrip_oracle(c: &RCase) -> Verdict {
     })
 }
 
+/// Stack the decoder may use before the check calls it unbounded: the default
+/// stack of a Rust thread is 2 MiB (the main thread usually has 8 MiB).
+const STACK_LIMIT: usize = (2 << 20) - (256 << 10);
+
+fn nest_bytes(c: &NCase) -> Vec<u8> {
+    let mut path: Vec<u32> = Vec::new();
+    if c.shape == 0 {
+        path.push(7); // ModelProto.graph
+        for _ in 0..c.depth {
+            path.extend([1, 5, 6]); // GraphProto.node -> NodeProto.attribute -> AttributeProto.g
+        }
+    } else {
+        path.extend([7, 11, 2]); // graph -> input (ValueInfoProto) -> type
+        for _ in 0..c.depth {
+            path.extend([4, 1]); // TypeProto.sequence_type -> Sequence.elem_type
+        }
+    }
+    grammar::nested_chain(&[0x08, 0x08], &path)
+}
+
+fn nest_oracle(c: &NCase) -> Verdict {
+    let bytes = nest_bytes(c);
+    // The whole oracle runs on a thread with a 1 GiB (lazily committed) stack,
+    // so that the recursion depth can be *measured* instead of crashing.
+    let rep = std::thread::scope(|sc| {
+        std::thread::Builder::new()
+            .stack_size(1 << 30)
+            .spawn_scoped(sc, || {
+                oracle::check_bytes(&bytes, &Opts { chunk: usize::MAX, file_dir: None, run_parse_buf: true })
+            })
+            .expect("spawn")
+            .join()
+    });
+    let mut rep = match rep {
+        Ok(r) => r,
+        Err(_) => return Verdict::fail("harness:nest-thread-panicked", "the oracle thread panicked"),
+    };
+    let levels = if c.shape == 0 { 3 * c.depth as usize + 1 } else { 2 * c.depth as usize + 3 };
+    if rep.stack_used > STACK_LIMIT {
+        let per_level = rep.stack_used / levels.max(1);
+        let per_byte = rep.stack_used as f64 / bytes.len() as f64;
+        rep.violations.push((
+            "stack:recursion-depth-unbounded".to_string(),
+            format!(
+                "{} nested messages in a {}-byte input make the decoder use {} bytes of stack (~{per_level} per level, recursion depth is not limited): more than a default 2 MiB thread stack; an input of ~{:.0} KiB overflows an 8 MiB main-thread stack (SIGSEGV/abort, not an error)",
+                levels,
+                bytes.len(),
+                rep.stack_used,
+                (8u64 << 20) as f64 / per_byte / 1024.0
+            ),
+        ));
+        rep.violations.sort_by_key(|(s, _)| oracle::severity(s));
+    }
+    if let Some((sig, detail)) = oracle::pick_violation(&rep, vc_onnx::known()) {
+        return Verdict::fail(sig.clone(), detail.clone());
+    }
+    let mut labels = vec![if c.shape == 0 { "nest:graph-attribute-chain" } else { "nest:sequence-type-chain" }];
+    labels.push(match rep.stack_used {
+        0..=65_535 => "stack:<64K",
+        65_536..=1_048_575 => "stack:64K-1M",
+        _ => "stack:>=1M",
+    });
+    labels.extend(rep.labels.iter().copied());
+    Verdict::pass_l(c.depth >= 2, labels)
+}
+
 fn fuzz_oracle(c: &FuzzCase) -> Verdict {
     let r = match c.target.as_str() {
         "onnx_decode_counting" => vc_onnx::fuzz_entry_decode_counting(&c.bytes),
@@ -349,7 +423,10 @@ fn run_fuzz_campaign(ck: &mut Check, target: &str, runs: u64, max_time_s: u64) -
         .env("CARGO_NET_OFFLINE", "true")
         .env("VCORE_ROOT", &root)
         .env_remove("VCORE_CHILD")
-        .args(["+nightly", "fuzz", "run", target])
+        // --fuzz-dir: cargo-fuzz otherwise insists on a parent (non-fuzz) cargo project
+        .args(["+nightly", "fuzz", "run", "--fuzz-dir"])
+        .arg(&fuzz_dir)
+        .arg(target)
         .arg(&corpus);
     if seed_corpus.is_dir() {
         cmd.arg(&seed_corpus);
@@ -428,7 +505,8 @@ fn main() {
          length from {2^k + d : k in 0,7,14,21,28,31,32,35,40,47,56,62,63,64, |d|<=40} in each of 8 decoder contexts x {0,3,17} \
          payload bytes present x 2 reader chunk sizes; (mutate) 0-3 structure-aware or byte-level mutations of mnist.onnx, \
          mnist-external and writer-made models; (truncate, exhaustive for small bases) prefixes of valid models; (roundtrip) \
-         random valid models from the writer. Each input runs through decode-over-CountingReader, parse_buf, is_onnx_model and \
+         random valid models from the writer; (deep-nesting) chains of 1..N embedded graph-attribute / sequence-type messages up to \
+         200 KB, decoder stack use measured on a 1 GiB-stack thread. Each input runs through decode-over-CountingReader, parse_buf, is_onnx_model and \
          parse_file. Non-trivial = the decoder consumed >= 2 bytes AND the case has its sub-check's feature (an adversarial \
          construct or LEN record / >= 1 mutation / cut inside a top-level LEN field / always for grid and roundtrip). Distinct = \
          distinct Debug rendering of the case; for grammar and roundtrip cases that rendering is (FNV-64 of the encoded bytes, length, chunk selector).",
@@ -505,6 +583,25 @@ fn main() {
         );
     }
 
+    // 4b. deeply nested messages: recursion depth / stack use
+    {
+        let mut plan: Vec<NCase> = Vec::new();
+        for shape in 0..2u8 {
+            let max_bytes: usize = if thorough { 1 << 20 } else { 200_000 };
+            let mut d: u32 = 1;
+            loop {
+                let c = NCase { shape, depth: d };
+                // input size grows ~ (8..12) bytes per unit
+                if (d as usize) * 6 > max_bytes || nest_bytes(&c).len() > max_bytes {
+                    break;
+                }
+                plan.push(c);
+                d = (d + 1).max(d * 5 / 4);
+            }
+        }
+        ck.enumerate("deep-nesting", false, plan.into_iter(), nest_oracle);
+    }
+
     // 5. round trip of valid models
     ck.prop(
         "roundtrip",
@@ -517,7 +614,7 @@ fn main() {
     let mut artifacts: Vec<FuzzCase> = Vec::new();
     if thorough && !ck.is_replay() && ck.selected("fuzz-crash") && vcore::flavour() == "ship" {
         for target in ["onnx_parse_buf", "onnx_decode_counting"] {
-            artifacts.extend(run_fuzz_campaign(&mut ck, target, 400_000, 900));
+            artifacts.extend(run_fuzz_campaign(&mut ck, target, 150_000, 1200));
         }
     }
     let unreproduced: Vec<FuzzCase> = artifacts.iter().filter(|c| !fuzz_oracle(c).is_fail()).cloned().collect();
